@@ -159,6 +159,130 @@ func checkC02(e *Engine, r *Report) {
 		r.Check("R11:initial-free-is-allowed", "R11 partition frame lemmas", "a configuration starts with all available CPUs free (freeCpus = allowed)", e.Pos(setConfig.Pos()), setConfig, ok, "", true)
 	}
 
+	// … and from an empty balloon list: before the first balloon of the new configuration is created (applyBalloonDef)
+	// every path has reset both the free set and the list of balloons, so no balloon of the previous configuration
+	// keeps CPUs that are free again
+	{
+		applyDef := e.Fn(pkgBL, "balloons.applyBalloonDef")
+		isApply := func(in ssa.Instruction) bool { return applyDef != nil && e.callOf(in, applyDef) }
+		resetsList := func(in ssa.Instruction) bool {
+			st, ok := in.(*ssa.Store)
+			if !ok || fieldOfAddr(st.Addr) != fBlns {
+				return false
+			}
+			// an empty slice literal / make / nil
+			switch v := st.Val.(type) {
+			case *ssa.Slice:
+				return len(sliceLiteralElems(v)) == 0
+			case *ssa.MakeSlice:
+				return isConstInt(v.Len, 0)
+			case *ssa.Const:
+				return v.IsNil()
+			}
+			return false
+		}
+		resetsFree := func(in ssa.Instruction) bool {
+			st, ok := in.(*ssa.Store)
+			return ok && fieldOfAddr(st.Addr) == fFree
+		}
+		if applyDef == nil {
+			r.Undecided("R11:initial-balloon-list-empty", "R11 partition frame lemmas", "applyBalloonDef exists", "-", nil, "not found")
+		} else {
+			p1 := FindPath(PathQuery{Fn: setConfig, Target: isApply, Block: resetsList})
+			r.Check("R11:initial-balloon-list-empty", "R11 partition frame lemmas", "a configuration starts with no balloons: the list is emptied before the first balloon of the new configuration is created", e.Pos(setConfig.Pos()), setConfig, p1 == nil, e.pathString(p1), true)
+			p2 := FindPath(PathQuery{Fn: setConfig, Target: isApply, Block: resetsFree})
+			r.Check("R11:initial-free-before-first-balloon", "R11 partition frame lemmas", "the free set is reset before the first balloon of the new configuration is created", e.Pos(setConfig.Pos()), setConfig, p2 == nil, e.pathString(p2), true)
+		}
+	}
+	// a container is looked up in the balloon that lists its own id; a balloon is deleted alone
+	if fn := r.Anchor(pkgBL, "balloons.balloonByContainer"); fn != nil && len(fn.Params) == 2 {
+		cP := ssa.Value(fn.Params[1])
+		okL, nRet := true, 0
+		for _, ret := range Returns(fn) {
+			if k, isK := ret.Results[0].(*ssa.Const); isK && k.IsNil() {
+				continue
+			}
+			nRet++
+			dom := false
+			for _, cf := range dominatingConds(ret.Block()) {
+				_, y, op, ok := cmpOriented(cf.Cond, func(v ssa.Value) bool {
+					c, ok := unspill(v).(*ssa.Call)
+					return ok && callObj(c.Common()) != nil && callObj(c.Common()).Name() == "GetID" && sameObject(callArgs(c)[0], cP)
+				})
+				if !ok {
+					continue
+				}
+				if !cf.Val {
+					op = negCmp(op)
+				}
+				// the other side: an element of the returned balloon's PodIDs lists
+				isMember := false
+				if u, ok := unspill(y).(*ssa.UnOp); ok && u.Op == token.MUL {
+					if ia, ok := u.X.(*ssa.IndexAddr); ok {
+						Origins(ia.X, func(o ssa.Value) bool {
+							if lk, ok := o.(*ssa.Lookup); ok {
+								if f, b := loadedField(lk.X); f == fPod && sameObject(b, ret.Results[0]) {
+									isMember = true
+								}
+							}
+							return isMember
+						})
+					}
+				}
+				if op == token.EQL && isMember {
+					dom = true
+				}
+			}
+			if !dom {
+				okL = false
+			}
+		}
+		r.Check("R11:lookup-by-own-id", "confinement", "balloonByContainer returns a balloon only where one of that balloon's listed container ids equals the container's id", e.Pos(fn.Pos()), fn, okL && nRet > 0, "", true)
+	}
+	{
+		bP := ssa.Value(delBln.Params[1])
+		loops := sliceLoops(delBln)
+		nKeep := 0
+		for _, lp := range loops {
+			lp := lp
+			if f, _ := loadedField(rangedSlice(lp)); f != fBlns {
+				continue
+			}
+			nKeep++
+			same := func(val bool) Assumption {
+				return func(cond ssa.Value) (bool, bool) {
+					x, y, op, ok := cmpOriented(cond, lp.elem)
+					_ = x
+					if !ok || !sameObject(y, bP) || (op != token.EQL && op != token.NEQ) {
+						return false, false
+					}
+					return true, (op == token.EQL) == val
+				}
+			}
+			keeps := func(in ssa.Instruction) bool {
+				call, ok := in.(*ssa.Call)
+				if !ok {
+					return false
+				}
+				bi, ok := call.Common().Value.(*ssa.Builtin)
+				if !ok || bi.Name() != "append" {
+					return false
+				}
+				for _, el := range sliceLiteralElems(call.Common().Args[1]) {
+					if lp.elem(el) {
+						return true
+					}
+				}
+				return false
+			}
+			p1 := lp.skips(same(false), keeps, true)
+			r.Check("R3:delete-keeps-other-balloons", "ownership", "deleting a balloon keeps every other balloon in the list", e.InstrPos(lp.start), delBln, p1 == nil, e.pathString(p1), true)
+			p2 := FindPath(PathQuery{Fn: delBln, From: lp.start, Assume: same(true), Target: keeps, Block: func(in ssa.Instruction) bool { return in == lp.head.Instrs[0] }})
+			r.Check("R3:delete-drops-that-balloon", "ownership", "deleting a balloon removes it from the list", e.InstrPos(lp.start), delBln, p2 == nil && !keeps(lp.start), e.pathString(p2), true)
+		}
+		r.MinInstances("loop over balloons in deleteBalloon", nKeep, 1)
+	}
+
 	// ---- rule 3: idle sharing ----------------------------------------------------------------------
 	{
 		// reduction by Isolated() before any use in the add phase
@@ -731,6 +855,68 @@ func checkC02(e *Engine, r *Report) {
 		}
 		r.Check("R2:clamp-max", "R2 limits", "resizeBalloon never sizes a balloon above its type's MaxCpus (count > MaxCpus is replaced by MaxCpus)", e.Pos(resize.Pos()), resize, okMax, "", true)
 		r.Check("R2:clamp-min", "R2 limits", "resizeBalloon never sizes a balloon below its type's MinCpus (count < MinCpus is replaced by MinCpus)", e.Pos(resize.Pos()), resize, okMin, "", true)
+		// direction: the balloon's CPU set grows (Union) only where the requested count exceeds the current one, and shrinks
+		// (Difference) only where it does not — a resize that reports success has moved towards its target
+		{
+			fBlnCpus := e.Field(pkgBL, "Balloon", "Cpus")
+			isDelta := func(v ssa.Value) bool { // (new count) - (current size of the balloon's CPUs)
+				b, ok := unspill(v).(*ssa.BinOp)
+				if !ok || b.Op != token.SUB {
+					return false
+				}
+				hit := false
+				Origins(b.Y, func(o ssa.Value) bool {
+					if c, ok := o.(*ssa.Call); ok && callObj(c.Common()) != nil && callObj(c.Common()).Name() == "Size" {
+						if f, _ := loadedField(callArgs(c)[0]); f == fBlnCpus {
+							hit = true
+						}
+					}
+					return hit
+				})
+				return hit
+			}
+			nDir := 0
+			AllInstrs(resize, func(in ssa.Instruction) {
+				st, ok := in.(*ssa.Store)
+				if !ok || fieldOfAddr(st.Addr) != fBlnCpus {
+					return
+				}
+				call, ok := st.Val.(*ssa.Call)
+				if !ok || callObj(call.Common()) == nil {
+					return
+				}
+				name := callObj(call.Common()).Name()
+				if name != "Union" && name != "Difference" {
+					return
+				}
+				if f, _ := loadedField(callArgs(call)[0]); f != fBlnCpus {
+					return
+				}
+				nDir++
+				grow := name == "Union"
+				okDir := false
+				for _, cf := range dominatingConds(st.Block()) {
+					_, y, op, ok := cmpOriented(cf.Cond, isDelta)
+					if !ok || !isConstInt(y, 0) {
+						continue
+					}
+					if !cf.Val {
+						op = negCmp(op)
+					}
+					// now: delta op 0 holds here
+					if grow && op == token.GTR {
+						okDir = true
+					}
+					if !grow && (op == token.LEQ || op == token.LSS) {
+						okDir = true
+					}
+				}
+				key := map[bool]string{true: "grow", false: "shrink"}[grow]
+				r.Check("R2:resize-direction#"+key, "R2 limits", "resizeBalloon "+map[bool]string{true: "adds CPUs to a balloon only when the target count exceeds its current size", false: "removes CPUs from a balloon only when the target count does not exceed its current size"}[grow],
+					e.InstrPos(in), resize, okDir, "", true)
+			})
+			r.MinInstances("grow/shrink stores of Balloon.Cpus in resizeBalloon", nDir, 2)
+		}
 		// newBalloon: creation unreachable when MaxBalloons is reached
 		var mk ssa.Instruction
 		AllInstrs(newBln, func(in ssa.Instruction) {
